@@ -83,6 +83,13 @@ func units(tier string) []mc.Unit {
 				n = 5
 			}
 			add(n, full, func(h []string) *params {
+				if len(h) == 5 { // 5-block histories: without "insertinfo" (the other insertion event; same row, same tree of choices)
+					for _, k := range h {
+						if k == "insertinfo" {
+							return nil
+						}
+					}
+				}
 				if tier == "thorough" {
 					return &params{MaxCont: 1 + b2i(len(h) <= 3), ContKinds: full, Restart: true, Nested: len(h) <= 3, AfterFull: len(h) <= 2, Reader: len(h) <= 3}
 				}
